@@ -16,7 +16,7 @@ from fractions import Fraction
 sys.path.insert(0, os.path.dirname(os.path.abspath(__file__)))
 import common
 from common import Check
-from c16 import q, qpt, cb, gen_spec
+from c16 import q, qpt, cb, gen_spec, DEPTH_Z, DEPTH_H
 
 PID = "C03"
 
@@ -40,7 +40,7 @@ def subset(rng, n, lo=1, hi=6):
 def gen_discrete(rng, idx, pool):
     n = len(pool)
     kind = rng.choice(["ps", "grid", "ps_inter_ps", "ps_inter_region", "region_inter_ps", "gen_inter", "gen_inter", "gen_union",
-                       "gen_union", "op_union", "gen_diff", "op_diff", "diff_union"])
+                       "gen_union", "op_union", "gen_diff", "op_diff", "diff_union", "gen_inter_poly", "gen_diff_poly"])
     c = dict(id=idx, kind=kind)
     if kind == "ps":
         c["A"] = subset(rng, n)
@@ -52,6 +52,12 @@ def gen_discrete(rng, idx, pool):
         c["A"] = subset(rng, n, 2, 8)
         z = rng.choice([0.0, 1.5])
         c["spec"] = gen_spec(rng, rng.choice(["circle", "rect", "sector"]), z)
+    elif kind in ("gen_inter_poly", "gen_diff_poly"):
+        # a point set (two heights) against a polygon / rectangle at one of those heights: only the points AT the
+        # region's height and over its footprint belong to it
+        c["A"] = subset(rng, n, 3, 9)
+        c["spec"] = gen_spec(rng, rng.choice(["polygon", "rect"]), rng.choice([0.0, 1.5]))
+        c["order"] = rng.randint(0, 1)
     elif kind in ("gen_inter", "gen_union"):
         c["regs"] = [subset(rng, n) for _ in range(rng.choice([2, 2, 3]))]
     elif kind == "op_union":
@@ -83,6 +89,13 @@ def model_tree(cfg, r):
         return f"diff_tree mu1 {nl(cfg['A'])} {nl(cfg['B'])}"
     if k == "diff_union":
         return f"diff_tree mu1 {nl(cfg['A'])} {nl(sorted(set(cfg['B']) | set(cfg['C'])))}"
+    if k in ("gen_inter_poly", "gen_diff_poly"):
+        O = [a for a, m in zip(cfg["A"], r["in_region"]) if m]
+        if k == "gen_diff_poly":
+            return f"diff_tree mu1 {nl(cfg['A'])} {nl(O)}"
+        # only the operand of minimal dimension (the point set) is sampled; all operands must contain the point
+        regs = [nl(cfg['A']), nl(O)] if cfg.get("order", 0) == 0 else [nl(O), nl(cfg['A'])]
+        return f"inter_tree_n mu1 [{'; '.join(regs)}] [{nl(cfg['A'])}]"
     return None
 
 
@@ -110,20 +123,44 @@ def result_set(cfg, r):
         return S(cfg["A"]) - S(cfg["B"])
     if k == "diff_union":
         return S(cfg["A"]) - S(cfg["B"]) - S(cfg["C"])
+    if k == "gen_inter_poly":
+        return {a for a, m in zip(cfg["A"], r.get("in_region", [])) if m}
+    if k == "gen_diff_poly":
+        return {a for a, m in zip(cfg["A"], r.get("in_region", [])) if not m}
     return None
 
 
 # ------------------------------------------------------------------ continuous configurations
 def gen_continuous(rng, idx, n):
-    kind = rng.choice(["prim", "prim", "prim", "gen_union", "gen_inter", "gen_diff", "intersect", "union", "difference"])
+    kind = rng.choice(["prim", "prim", "prim", "gen_union", "gen_union", "gen_inter", "gen_diff", "intersect", "union", "difference", "hist"])
     z = rng.choice([0.0, 1.5, -2.0])
     c = dict(id=idx, kind=kind, n=n, seed=rng.randint(0, 10 ** 6), k=5)
     if kind == "prim":
         pk = rng.choice(["rect", "circle", "sector", "polyline", "polygon", "box", "rect", "circle", "sector"])
         c["A"] = gen_spec(rng, pk, z)
+    elif kind == "hist":
+        # one footprint object met by 2-3 boxes in turn, thin ones first, at depths / heights spread over orders of magnitude
+        c["A"] = gen_spec(rng, "footprint", 0.0)
+        c["A"]["kind"] = rng.choice(["footprint", "polyfoot"])
+        c["A"]["z"] = 0.0
+        vols = []
+        for _ in range(rng.randint(2, 3)):
+            while True:
+                h, zc = rng.choice(DEPTH_H), rng.choice(DEPTH_Z)
+                if max(1.0, zc) * (h + 1) <= 10000:
+                    break
+            vols.append(dict(kind="box", dims=[round(rng.uniform(3, 8), 3), round(rng.uniform(3, 8), 3), h],
+                             pos=[round(rng.uniform(-1, 1), 3), round(rng.uniform(-1, 1), 3), zc], rot=[rng.choice([0.0, round(rng.uniform(-3, 3), 3)]), 0.0, 0.0]))
+        if rng.random() < 0.7:
+            vols.sort(key=lambda v: v["dims"][2])
+        c["vols"] = vols
+        c["ops"] = [rng.choice(["intersect", "difference", "intersects"]) for _ in vols[:-1]] + [rng.choice(["intersect", "intersect", "difference"])]
+        c["n"] = min(n, 1500)
     else:
         c["A"] = gen_spec(rng, rng.choice(["rect", "circle", "polygon", "sector"]), z)
-        c["B"] = gen_spec(rng, rng.choice(["rect", "circle", "polygon"]), z)
+        # the second operand at the same height (merged exactly when both are polygons) or above / below the first one
+        zb = z if rng.random() < 0.55 else rng.choice([t for t in (0.0, 1.5, -2.0) if t != z])
+        c["B"] = gen_spec(rng, rng.choice(["rect", "circle", "polygon"]), zb)
     return c
 
 
@@ -325,6 +362,11 @@ def main():
         r = cres[cfg["id"]]
         base = dict(config=cfg)
         kinds = cfg["kind"] + ":" + cfg["A"]["kind"] + ("+" + cfg["B"]["kind"] if "B" in cfg else "")
+        if cfg["kind"] == "hist":
+            kinds += ":" + "/".join(cfg["ops"])
+        elif "B" in cfg and r.get("overlap_area") is not None:
+            kinds += ":different-heights"
+            c.hist("continuous-different-heights:" + ("overlapping-footprints" if r["overlap_area"] > 0.2 else "disjoint-footprints"))
         c.hist("continuous:" + cfg["kind"])
         if "exc" in r:
             c.hist(f"continuous-exc:{r['exc']}")
@@ -342,6 +384,10 @@ def main():
             c.violation("membership", f"{kinds}: a sampled point does not belong to the region (operands' containsPoint, all three coordinates)",
                         dict(base, result_class=r["class"], samples=r["bad_members"]))
         formula_cases(cfg, r, cases)
+        if cfg["kind"] == "hist" and r.get("expected_size") is not None and isinstance(r.get("size"), (int, float)):
+            if r["expected_size"] > 1e-3 and abs(r["size"] - r["expected_size"]) > 1e-2 * r["expected_size"]:
+                c.violation("size", f"{kinds}: the size of the composed region is not the measure of the composed set "
+                            "(footprint object reused from earlier operations)", dict(base, result_class=r["class"], size=r["size"], expected=r["expected_size"]))
         x = chi2_check(c, cfg, r)
         if x:
             chi.append(dict(config=cfg["id"], kinds=kinds, cls=r["class"], **{k: (round(v, 2) if isinstance(v, float) else v) for k, v in x.items()}))
